@@ -46,7 +46,7 @@ type kp = []string
 var properties = map[string]propSpec{
 	"C01": {Rules: rl{ruleBroadcastShape, ruleMutateRelay, ruleAcceptedApplies, ruleCascade, ruleSnapshot, ruleErrorDiscipline, ruleModuleCleanup, ruleModuleInit, ruleStoreContracts, ruleSubscriptions, ruleEntityActions, ruleAtomicity}, Keep: kp{"C3", "C1", "B8", "E4", "C7", "ERR", "E3", "J3", "J4", "S-", "E8"}, Sites: map[string][]string{"E8": {"entity:exists", "modulestate:missing"}}},
 	"C02": {Rules: rl{ruleMutateRelay, ruleAcceptedApplies, ruleAnswers, ruleSenderExcluded, ruleDecoratorForward, ruleBroadcastShape, ruleRelaySync, ruleModuleInit}, Keep: kp{"C1", "B8", "B5", "B7", "C2", "A2", "C3", "C6", "J3"}},
-	"C03": {Rules: rl{ruleBroadcastShape, ruleSenderExcluded, ruleJoinedGuard, rulePairedState, ruleDispatchTotal, ruleAnswers, ruleModuleInit, ruleRegistry, ruleIDGenerator, ruleLeaveCallers}, Keep: kp{"C3", "J6", "J1", "J2", "E9", "A1", "B5", "J3", "E7", "D3", "E2"}},
+	"C03": {Rules: rl{ruleNoGlobalSessionData, ruleBroadcastShape, ruleSenderExcluded, ruleJoinedGuard, rulePairedState, ruleDispatchTotal, ruleAnswers, ruleModuleInit, ruleRegistry, ruleIDGenerator, ruleLeaveCallers}, Keep: kp{"J5", "C3", "J6", "J1", "J2", "E9", "A1", "B5", "J3", "E7", "D3", "E2"}},
 	"C04": {Rules: rl{ruleDispatchTotal, ruleAnswers, ruleAcceptedApplies, ruleJoinedGuard, ruleDecoratorForward, ruleModuleCleanup, ruleStoreContracts, ruleSubscriptions}, Keep: kp{"A1", "B", "J2", "A2", "E3", "S-"}},
 	"C05": {Rules: rl{ruleOwnerGuard, ruleAnswers, ruleSenderExcluded, ruleIDGenerator, ruleIDSources}, Keep: kp{"D1", "B5", "J1", "D3", "D2", "D5"}},
 	"C06": {Rules: rl{ruleLeaveComplete, ruleLeaveCallers, ruleModuleCleanup, ruleCascade, ruleDecoratorForward, ruleMutateRelay, ruleSnapshot, ruleSubscriptions, ruleStoreContracts}, Keep: kp{"E1", "E2", "E3", "E4", "E6", "E9", "A2", "C1", "C7", "S-UnsubscribeAll", "S-DeleteByEntity"}},
